@@ -522,7 +522,7 @@ def run_case(case):
                         "split": "whole", "dest": "bytesio", "mode": 0o100644, "mtime": 4, "cb": rng.choice([None, "ok"])} for i in range(rng.randint(2, 4))]
         sc["dims"]["noise"] = []
     if pert == "dirs":
-        sc = scen.gen_scenario(rng, nsteps=rng.randint(1, 5), fails=True, dirs=True)
+        sc = scen.gen_scenario(rng, nsteps=rng.randint(1, 5), fails=True, dirs=True, hist=True)
         for st in sc["steps"]:
             if st.get("mtime") == 0:
                 st["mtime"] = 4
